@@ -65,7 +65,7 @@ let check acc ~klass (c : wcfg) ops (clean_bytes : string) (mchunks : n list lis
         fail acc ~kind:"model_mismatch" ~what:"[C20] implementation completes, model aborts" (JO [ "case", casej () ]);
         fail acc ~kind:"spec_violation" ~what:"[C20] a hard write error / zero return was met before the data was written, yet the writer reported success" (JO [ "case", casej () ]));
      if (match m with Ok _ -> true | _ -> false) && bytes <> clean_bytes then
-       fail acc ~kind:"spec_violation" ~what:"[C20] finished file differs from the one written without short writes/EINTR"
+       fail acc ~kind:"spec_violation" ~what:"[C20,C01] finished file differs from the one written without short writes/EINTR"
          (JO [ "case", casej (); "len", JI (String.length bytes); "clean_len", JI (String.length clean_bytes) ]));
   (try Sys.remove path with _ -> ())
 
